@@ -45,7 +45,11 @@ pub fn run(args: &Args) -> Report {
             for require in [false, true] {
                 for cred_props in [None, Some(false), Some(true)] {
                   for (counters, prf) in [(false, false), (true, false), (false, true), (true, true)] {
-                   for uid in [0usize, 1, 2] {
+                   for (uid, selection_absent) in [(0usize, false), (1, false), (2, false), (0, true)] {
+                    // the whole authenticatorSelection member absent: only meaningful where it says nothing
+                    if selection_absent && (rk_req.is_some() || require) {
+                        continue;
+                    }
                     let user_id: Vec<u8> = match uid {
                         0 => b"the-user".to_vec(),
                         1 => vec![0x55],
@@ -56,7 +60,7 @@ pub fn run(args: &Args) -> Report {
                         continue;
                     }
                     rep.eval();
-                    let case = json!({"index": index, "level": "client", "capability": format!("{disc:?}"), "residentKey": rk_req.map(|r| format!("{r:?}")), "requireResidentKey": require, "credProps": cred_props, "signature_counters": counters, "prf_requested_and_configured": prf, "user_id_len": user_id.len()});
+                    let case = json!({"index": index, "level": "client", "capability": format!("{disc:?}"), "residentKey": rk_req.map(|r| format!("{r:?}")), "requireResidentKey": require, "credProps": cred_props, "signature_counters": counters, "prf_requested_and_configured": prf, "user_id_len": user_id.len(), "authenticatorSelection_absent": selection_absent});
                     rep.nontrivial(fnv_str(&case.to_string()));
                     let want_rk = map_rk(rk_req, require, supports_rk);
                     let refused = want_rk && !supports_rk;
@@ -71,6 +75,9 @@ pub fn run(args: &Args) -> Report {
                             require_resident_key: require,
                             user_verification: UserVerificationRequirement::Preferred,
                         });
+                        if selection_absent {
+                            opts.public_key.authenticator_selection = None;
+                        }
                         if cred_props.is_some() || prf {
                             opts.public_key.extensions = Some(AuthenticationExtensionsClientInputs {
                                 cred_props,
@@ -185,13 +192,17 @@ pub fn run(args: &Args) -> Report {
             }
         }
         // ---------------- CTAP level
-        for (rk, form) in [false, true].into_iter().flat_map(|rk| (0..5usize).map(move |f| (rk, f))) {
+        for (rk, form) in [false, true].into_iter().flat_map(|rk| (0..6usize).map(move |f| (rk, f))) {
+            // form 5: the request arrives as CBOR whose options map does not name "rk"
+            if form == 5 && rk {
+                continue;
+            }
             index += 1;
             if only.map_or(false, |o| o != index) {
                 continue;
             }
             rep.eval();
-            let form_name = ["store", "Arc<Mutex<store>>", "Arc<RwLock<store>>", "Mutex<store>", "RwLock<store>"][form];
+            let form_name = ["store", "Arc<Mutex<store>>", "Arc<RwLock<store>>", "Mutex<store>", "RwLock<store>", "store, request decoded from CBOR with an options map that does not name rk"][form];
             let case = json!({"index": index, "level": "ctap", "capability": format!("{disc:?}"), "rk": rk, "store_form": form_name});
             rep.nontrivial(fnv_str(&case.to_string()));
             let refused = rk && !supports_rk;
@@ -199,11 +210,12 @@ pub fn run(args: &Args) -> Report {
             let r = catch(|| {
                 let rig = Rig::ok(disc);
                 match form {
-                    0 => ctap_cell(rig.store.clone(), &rig, rk),
-                    1 => ctap_cell(std::sync::Arc::new(tokio::sync::Mutex::new(rig.store.clone())), &rig, rk),
-                    2 => ctap_cell(std::sync::Arc::new(tokio::sync::RwLock::new(rig.store.clone())), &rig, rk),
-                    3 => ctap_cell(tokio::sync::Mutex::new(rig.store.clone()), &rig, rk),
-                    _ => ctap_cell(tokio::sync::RwLock::new(rig.store.clone()), &rig, rk),
+                    0 => ctap_cell(rig.store.clone(), &rig, rk, false),
+                    5 => ctap_cell(rig.store.clone(), &rig, rk, true),
+                    1 => ctap_cell(std::sync::Arc::new(tokio::sync::Mutex::new(rig.store.clone())), &rig, rk, false),
+                    2 => ctap_cell(std::sync::Arc::new(tokio::sync::RwLock::new(rig.store.clone())), &rig, rk, false),
+                    3 => ctap_cell(tokio::sync::Mutex::new(rig.store.clone()), &rig, rk, false),
+                    _ => ctap_cell(tokio::sync::RwLock::new(rig.store.clone()), &rig, rk, false),
                 }
             });
             let (info_rk, reg, snap, get, get2) = match r {
@@ -339,13 +351,32 @@ type CtapCell = (Option<bool>, Result<(), u8>, Vec<crate::collab::CredSnap>, Opt
 
 /// One CTAP-level cell over a store form (the reference store itself or one of the library's lock
 /// wrappers around it): get_info, registration, then two assertions without allow list.
-fn ctap_cell<S>(store: S, rig: &Rig, rk: bool) -> CtapCell
+fn ctap_cell<S>(store: S, rig: &Rig, rk: bool, decoded_without_rk: bool) -> CtapCell
 where
     S: passkey_authenticator::CredentialStore<PasskeyItem = passkey_types::Passkey> + Send + Sync,
 {
     let mut auth = crate::util::mk_auth(store, rig.uv.clone(), AuthCfg::default());
     let info_rk = block_on(auth.get_info()).options.map(|o| o.rk);
-    let reg = block_on(auth.make_credential(mc_request("example.com", b"the-user", &[1u8; 32], vec![pk_param(coset::iana::Algorithm::ES256)], None, None, rk, true, false)));
+    let mut req = mc_request("example.com", b"the-user", &[1u8; 32], vec![pk_param(coset::iana::Algorithm::ES256)], None, None, rk, true, false);
+    if decoded_without_rk {
+        // through the wire: serialise, drop "rk" from the options map (key 7), deserialise
+        let mut bytes = Vec::new();
+        ciborium::ser::into_writer(&req, &mut bytes).expect("serialise request");
+        let mut v: ciborium::Value = ciborium::de::from_reader(bytes.as_slice()).expect("parse request");
+        if let ciborium::Value::Map(m) = &mut v {
+            for (k, val) in m.iter_mut() {
+                if k.as_integer().map(i128::from) == Some(7) {
+                    if let ciborium::Value::Map(o) = val {
+                        o.retain(|(n, _)| n.as_text() != Some("rk"));
+                    }
+                }
+            }
+        }
+        let mut b2 = Vec::new();
+        ciborium::ser::into_writer(&v, &mut b2).expect("serialise value");
+        req = ciborium::de::from_reader(b2.as_slice()).expect("a request without rk in its options decodes");
+    }
+    let reg = block_on(auth.make_credential(req));
     let snap = rig.store.snapshot();
     let get = match &reg {
         Ok(_) => Some(block_on(auth.get_assertion(ga_request("example.com", &[2u8; 32], None, None, true, false)))),
